@@ -237,7 +237,9 @@ fn get_swap_transactions<C: ContentAddrStore>(state: &UnsealedState<C>) -> Vec<T
             (!tx.outputs.is_empty()).then_some(())?; // ensure not empty
             state.coins.get_coin(tx.output_coinid(0))?; // ensure that first output is unspent
             let pool_key = PoolKey::from_bytes(&tx.data)?; // ensure that data contains a pool key
-            state.pools.get(&pool_key)?; // ensure that pool key points to a valid pool
+            let pool_state = state.pools.get(&pool_key)?; // ensure that pool key points to a valid pool
+            // a pool emptied by withdrawing all its liquidity has zero reserves: nothing can be swapped against it
+            (pool_state.lefts > 0 && pool_state.rights > 0).then_some(())?;
             (tx.outputs[0].denom == pool_key.left() || tx.outputs[0].denom == pool_key.right())
                 .then_some(())?; // ensure that the first output is either left or right
             (tx.outputs[0].value.0 > 0).then_some(())?; // a request worth nothing is not a request (and would divide by a zero total)
